@@ -51,6 +51,9 @@ CLAIMED = {
  "C14": ("property-based testing at binary level: generated input files and option combinations vs. the harness' own merge/selection oracle; metamorphic relation on permuted file arguments",
          "Generated-configuration exploration against the adlt binary rebuilt from the working tree: stdout lines, re-read -o file and lifecycle listing are compared with an independent model of file grouping/chaining/merging, index window, lifecycle set and filter-set rules; permuted file arguments must give byte-identical output.",
          "clean traces only (lifecycle ground truth); text lines rendered with the library's header/payload text functions; -f and --eac form one filter set", "4/C14"),
+ "C15": ("stateful property-based testing (model-based command histories) against the adlt remote binary over websocket; parser progress owned through the adlt_verif schedule hook",
+         "Generated-history exploration: command sequences from a grammar with valid/invalid forms are sent to a server process rebuilt from the working tree; a model of {open, mode, live ids} derived from the replies predicts each reply kind; exactly-one-reply, no stray reply, connection/process survival and close/open liveness are asserted after every history.",
+         "one server process per history; reply timeout 20 s (60 s close) counts as violation; interleavings with parsing are sampled via the throttle schedule, not enumerated", "4/C15"),
 }
 PENDING = {}
 def main():
